@@ -1833,6 +1833,8 @@ class Executor:
                 return PyFn(diff, 'numpy.diff')
             if name == 'indices':
                 def indices(shape):
+                    if isinstance(shape, Tm):
+                        return Tm('call:lib:numpy.indices', shape)
                     shape = tuple(self.iterate(shape))
                     if not all(isinstance(n_, int) for n_ in shape):
                         raise Unsupported('symbolic numpy.indices')
@@ -1844,6 +1846,8 @@ class Executor:
                 return PyFn(indices, 'numpy.indices')
             if name == 'transpose':
                 def transpose(a, axes=None):
+                    if not isinstance(a, VList):
+                        return Tm('call:lib:numpy.transpose', a, *([axes] if axes is not None else []))
                     def rank(v):
                         r = 0
                         while isinstance(v, VList):
@@ -1883,9 +1887,9 @@ class Executor:
                 def dot(a, b):
                     """numpy.dot on arrays of concrete shape: sum over the last axis of a and the second-to-last (or only) axis of b"""
                     if not (isinstance(a, VList) and isinstance(b, VList)):
-                        if is_scalar(exact(a)) or is_scalar(exact(b)):
+                        if (is_scalar(exact(a)) or is_scalar(exact(b))) and not isinstance(a, Tm) and not isinstance(b, Tm):
                             return self.binop(ast.Mult(), a, b)
-                        return Tm('call:numpy.dot', a, b)
+                        return Tm('call:lib:numpy.dot', a, b)
                     def rank(v):
                         r = 0
                         while isinstance(v, VList):
